@@ -123,6 +123,9 @@ class FileResolver:
                 filepath = current / filename
                 if not self._include_spec.match_file(filename):
                     continue
+                if filepath.is_symlink():
+                    # Symlinks are not followed during traversal (files or directories).
+                    continue
                 if self._exceeds_max_size(filepath):
                     continue
                 if any(spec.match_file(filename) for spec in gitignore_specs):
